@@ -224,7 +224,8 @@ func legC04Analysis2(c *Ctx) {
 			if cs != nil {
 				runes = c04an2ClsRunes(cs, runes)
 			}
-			return implRes{encOptCls(cs, used), cs != nil}
+			// + the hypothesis lits_ok of the C04 theorems, expected of every real tree
+			return implRes{append(encOptCls(cs, used), 1), cs != nil}
 		})
 		for _, th := range []bool{false, true} {
 			th := th
